@@ -301,6 +301,16 @@ func c18Build(in KV, rd *n2Reader) (*c18Built, string, string) {
 	} else if sp, err := tls.UTLSIdToSpec(cl.id); err == nil {
 		specDesc = c18SpecShares(&sp)
 	}
+	if cl.captured != nil {
+		// the key shares of the hello the Fingerprinter was given
+		if cs, ok := c18ParseShares(cl.captured); ok {
+			var caps []string
+			for _, s := range cs {
+				caps = append(caps, fmt.Sprintf("%d:%d", s.group, len(s.data)))
+			}
+			specDesc += " cap=" + joinList(caps)
+		}
+	}
 	cfg := &tls.Config{ServerName: "example.golang", OmitEmptyPsk: cl.omitPsk, Rand: rd}
 	b := &c18Built{}
 	var u *tls.UConn
@@ -555,9 +565,23 @@ func c18MkPlan() *c18Plan {
 		if err != nil || !negHas16(ch.vers, 0x0304) {
 			continue
 		}
+		hybrid := negHas16(ch.shares, 4588) || negHas16(ch.shares, 0x6399)
 		for _, c := range n2ServerConfigs(ch, true, nil, 0) {
 			if strings.HasPrefix(c[0], "g13-") && !c18HybridHRR(c) {
 				p.hs = append(p.hs, fmt.Sprintf("id=%s src=parrot %s mode=%s", name, c[1], c[0]))
+				// the fingerprinted copy of a hello with a hybrid share: every share regenerated and backed
+				if hybrid && c[0] != "g13-hrr" {
+					p.hs = append(p.hs, fmt.Sprintf("id=%s src=fp %s mode=fp-%s", name, c[1], c[0]))
+				}
+			}
+		}
+		if hybrid {
+			p.fresh = append(p.fresh, fmt.Sprintf("id=%s src=fp n=12", name))
+		}
+		// a key share generated and then taken out of the built KeyShareExtension; the server retries with its group
+		for _, g := range n2Real(ch.shares) {
+			if g == 23 || g == 24 || g == 25 || g == 29 {
+				p.hs = append(p.hs, fmt.Sprintf("id=%s src=parrot smax=0304 curves=%d post=dropshare:%d mode=seq-dropshare-hrr", name, g, g))
 			}
 		}
 	}
@@ -578,6 +602,10 @@ func c18MkPlan() *c18Plan {
 			}
 		}
 	}
+	for _, sq := range c10RetrySeqs {
+		p.hs = append(p.hs, sq.toks+" mode=seq-"+sq.tag)
+	}
+	p.fresh = append(p.fresh, "id=Firefox-120 src=fp n=12")
 	// caller-supplied share data (no key generated), and the QUIC public path
 	p.shares = append(p.shares, "id=Chrome-133 src=custom mods=quictp,only13 via=quicstart", "id=Firefox-120 src=custom mods=quictp,only13 via=quicstart",
 		"id=Chrome-133 src=custom mods=quictp,only13,ks=4588+23+29 via=quicstart")
